@@ -9,6 +9,7 @@ import (
 
 type gen struct {
 	repo, out string
+	stubsDir  string
 	params    map[string]interface{}
 	failed    bool
 }
@@ -38,4 +39,5 @@ func (g *gen) writeParams(path string) {
 
 func (g *gen) run() {
 	g.lockTable()
+	g.tables()
 }
